@@ -273,7 +273,7 @@ class C04(Prop):
             "[UNIQUE] INDEX with ASC/DESC/NULLS; optionally one statement naming an undefined table; "
             "non-trivial = >= 2 tables sharing a name and >= 1 operation addressed through a re-spelled key; "
             "distinct = SHA-1 of the case")
-    budgets = {"quick": 3000, "thorough": 150000}
+    budgets = {"quick": 8000, "thorough": 150000}
     assumptions = [
         "ALTER ... ADD column NOT NULL and unnamed ADD DEFAULT <non-string> FOR are rejected by the grammar and not generated",
         "only the column defaults set by ADD DEFAULT ... FOR a, b are compared (alter.defaults[].columns keeps a ',' element)",
